@@ -23,7 +23,7 @@ VERIF = os.path.dirname(os.path.dirname(os.path.abspath(__file__)))
 
 
 def _one(args):
-    prop, label, patch, repo = args
+    prop, label, patch, repo, base_keys = args
     from .cli import run_property
     tmp = tempfile.mkdtemp(prefix="xyzsa-st-")
     try:
@@ -33,12 +33,15 @@ def _one(args):
         if r.returncode:
             return label, "skipped (patch does not apply to the current tree)", []
         code, new, ctx, lines = run_property(prop, "quick", tmp, write=False, quiet=True)
-        return label, {0: "silent", 1: "reported", 2: "analysis-error"}[code], sorted({f.rule for f in new})
+        fresh = [f for f in new if f.key not in base_keys]
+        if code == 1 and not fresh:
+            code = 0          # nothing beyond what the tree under check reports itself
+        return label, {0: "silent", 1: "reported", 2: "analysis-error"}[code], sorted({f.rule for f in fresh})
     finally:
         shutil.rmtree(tmp, ignore_errors=True)
 
 
-def run(prop, repo, evidence_path=None):
+def run(prop, repo, evidence_path=None, base_keys=frozenset()):
     exp_path = os.path.join(VERIF, "selftest_expect.json")
     expect = json.load(open(exp_path)) if os.path.exists(exp_path) else {}
     jobs = []
@@ -47,10 +50,10 @@ def run(prop, repo, evidence_path=None):
             p = os.path.join(VERIF, "seeded", label, "patch.diff")
             if not os.path.exists(p):
                 p = os.path.join(VERIF, "regress", label + ".diff")
-            jobs.append((prop, label, p, repo))
+            jobs.append((prop, label, p, repo, base_keys))
     twins = []
     for d in sorted(glob.glob(os.path.join(VERIF, "twins", "*", "patch.diff"))):
-        twins.append((prop, os.path.basename(os.path.dirname(d)), d, repo))
+        twins.append((prop, os.path.basename(os.path.dirname(d)), d, repo, base_keys))
     seed = int(os.environ.get("VERIF_SEED", "0") or 0)
     import random
     random.Random(seed).shuffle(jobs)
